@@ -7,6 +7,8 @@ REQUIRES = ["From Gdsl.Model Require Import Spec Serde.", "From Gdsl.Proofs Requ
 PINS = [
  ("c13_total_and_sane", "deserialize_total", "any document: an error, or a graph satisfying Inv (mirror/symmetry) with a well-formed container"),
  ("c13_ok_from_document", "rebuild_ok_inv", "on success the nodes are exactly the declared keys and every edge endpoint is declared"),
+ ("c13_rebuild_all_from_document", "rebuild_all_from_document", "for rebuild itself: every node of an Ok result is a (key, value) pair of the document, every outgoing and every incoming adjacency entry is an edge triple of the document between the nodes bound to its two keys — nothing else exists in the result"),
+ ("c13_deserialize_all_from_document", "deserialize_all_from_document", "the same for deserialize (the public entry point), through decode_doc"),
  ("c13_first_value_wins", "rebuild_nodes_first_wins", "a repeated key keeps the first declared value"),
  ("c13_edges_in_order", "rebuild_edges_spec", "on success every listed edge is connected, in listed order, nothing else; on failure the error names the first undeclared key"),
  ("c13_error_iff_undeclared", "rebuild_err_iff", "rebuild fails exactly when an edge names a key the document does not declare"),
